@@ -28,8 +28,8 @@ RULE = ("direct: random Atom records, each with at most one 'hostile' feature (s
         ' Round-3/4 additions: residue / atom names with +, -, _ from the shipped force fields; alternate-location flags on generated records and alt-loc inputs; titrated-state names under --ffout.')
 ASSUMPTIONS = ["fixed-column layout as documented in docs/source/formats/pqr.rst and written by get_pqr_string",
                "charges within +-9.9999 and radii < 10 (the property's quantifier)"]
-MIN = {"quick": {"records_compared": 15000, "own_reader_records": 5000, "e2e_runs": 30, "e2e_altloc_inputs": 6},
-       "thorough": {"records_compared": 600000, "own_reader_records": 200000, "e2e_runs": 800, "e2e_altloc_inputs": 500}}
+MIN = {"quick": {"records_compared": 15000, "own_reader_records": 5000, "e2e_runs": 30, "e2e_altloc_inputs": 6, "e2e_cif_inputs": 4},
+       "thorough": {"records_compared": 600000, "own_reader_records": 200000, "e2e_runs": 800, "e2e_altloc_inputs": 500, "e2e_cif_inputs": 300}}
 
 FEATURES = ["plain", "plain", "serial-big", "resseq-big", "resseq-4col", "coord-big", "icode", "digit-chain",
             "name4", "resn4", "hetatm", "blank-chain", "neg-coords", "punct-names", "altloc-flag"]
